@@ -42,20 +42,35 @@ theorem table_permitted (r : Radix) : lookup (eb r) permittedDigits = some (vali
 theorem table_base (r : Radix) : lookup (eb r) baseNumbers = some r.b := by
   cases r <;> decide
 
-/-- BIT_WIDTHS: ten digits of base b are 10·log₂ b bits. -/
+/-- wrap width (a negative number is written as value + 2^w): ten digits of base b are 10·log₂ b bits. -/
 theorem table_width (r : Radix) : lookup (eb r) bitWidths = some (bits r : Int) := by
   cases r <;> decide
+
+/-- sign width (bit w−1 of a digit string is the sign): the same 10·log₂ b. -/
+theorem table_sign_width (r : Radix) : lookup (eb r) signWidths = some (bits r : Int) := by
+  cases r <;> decide
+
+/-- at most ten digits are read, in every base. -/
+theorem table_max_digits (r : Radix) : lookup (eb r) maxDigits = some 10 := by
+  cases r <;> decide
+
+/-- `places` is accepted from 1 to 10. -/
+theorem table_places : placesMin = 1 ∧ placesMax = 10 := by decide
+
+/-- digits are written in upper case; a negative result keeps its digits whatever `places` says;
+    digit validation is per character. -/
+theorem table_flags : upperCase = true ∧ negativeKeepsDigits = true ∧ digitsPerCharacter = true := by
+  decide
 
 /-- width of a side for the bounds: `none` = decimal, unbounded -/
 def widthOf : EBase → Option Nat
   | .bin => some 10 | .oct => some 30 | .hex => some 40 | .dec => none
 
-/-- BOUNDS: every entry is 2^(w−1) for the narrower of its two sides, and every pair of
-    different sides has an entry. -/
+/-- the integers a conversion accepts are −2^(w−1) … 2^(w−1)−1 for the narrower of its two sides. -/
 theorem table_bounds_shape :
     ∀ row ∈ bounds, ∃ w, (match widthOf row.1, widthOf row.2.1 with
         | some a, some b => some (min a b) | some a, none => some a | none, some b => some b
-        | none, none => none) = some w ∧ row.2.2 = 2 ^ (w - 1) := by
+        | none, none => none) = some w ∧ row.2.2.1 = -(2 ^ (w - 1)) ∧ row.2.2.2 = 2 ^ (w - 1) - 1 := by
   decide
 
 /-- the bound the reference semantics needs between two sides -/
@@ -66,7 +81,7 @@ def boundOf : Side → Side → Nat
   | .dec, .dec => 0
 
 theorem table_bounds (o d : Side) (h : o ≠ d) :
-    lookupBound (ebs o) (ebs d) = some (boundOf o d : Int) := by
+    lookupBound (ebs o) (ebs d) = some (-(boundOf o d : Int), (boundOf o d : Int) - 1) := by
   cases o with
   | dec => cases d with
     | dec => exact absurd rfl h
@@ -127,6 +142,7 @@ theorem checkDigits_eq (r : Radix) (s : List Char) (hs : s ≠ []) :
   unfold checkDigits decode
   have hlen : s.length ≠ 0 := by
     intro h; exact hs (List.eq_nil_of_length_eq_zero h)
+  simp only [table_max_digits]
   by_cases h10 : s.length > 10
   · simp [h10]
   · simp only [h10, if_false, table_permitted, hlen, false_or]
@@ -166,7 +182,7 @@ theorem fromDigits_eq (r : Radix) (s : List Char) (n : Int) (h : decode r s = so
       have hh := half_add_half r
       constructor
       · unfold fromDigits
-        simp only [table_base, hpy, table_width, shl1_bits_pred]
+        simp only [table_base, hpy, table_sign_width, shl1_bits_pred]
         rw [two_pow_bits_pred, hm]
         injection h with h
         rw [← h]
@@ -234,6 +250,7 @@ theorem renderDigits_eq (r : Radix) (n : Int) (hw : inWindow r n) (p : Option Na
   have hmod : modulus r = r.b ^ 10 := rfl
   unfold inWindow at hw
   unfold renderDigits encode
+  simp only [table_flags.1, if_true]
   by_cases hneg : n < 0
   · -- negative: wrap by 2^w, ten digits, places ignored
     have hv0 : 0 ≤ n + (modulus r : Int) := by omega
@@ -264,7 +281,7 @@ theorem renderDigits_eq (r : Radix) (n : Int) (hw : inWindow r n) (p : Option Na
     cases p with
     | none => simp [padZeroes]
     | some k =>
-      simp only [padZeroes, Option.map, if_true, Int.lt_irrefl, if_false]
+      simp only [padZeroes, table_flags.2.1, Bool.and_true, Option.map, if_true, Int.lt_irrefl, if_false]
       simp [zfill, length_fixed]
   · -- non-negative: the digits without leading zeros, padded to places
     have hn0 : 0 ≤ n := by omega
@@ -281,7 +298,7 @@ theorem renderDigits_eq (r : Radix) (n : Int) (hw : inWindow r n) (p : Option Na
     | none => simp [padZeroes]
     | some k =>
       have hz := zfill_eq (refDigits r n) k (fun c hc => valid_not_sign r c (mem_refDigits r n c hc))
-      simp only [padZeroes, Option.map, Bool.false_eq_true, if_false]
+      simp only [padZeroes, Bool.false_and, Option.map, Bool.false_eq_true, if_false]
       by_cases hk : (refDigits r n).length > k
       · have : (Int.ofNat k) < ((refDigits r n).length : Int) := by
           simp only [Int.ofNat_eq_natCast]; omega
@@ -329,7 +346,7 @@ theorem places_ok (pl : Option S) (p : Option Nat) (h : classPlaces true pl = .o
         by_cases hz : 1 ≤ z ∧ z ≤ 10
         · simp [hz] at h
           subst h
-          simp only [handlePlaces, toInt_num x z hx, Res.bind, hz, and_self, if_true, Option.map]
+          simp only [handlePlaces, table_places.1, table_places.2, toInt_num x z hx, Res.bind, hz, and_self, if_true, Option.map]
           congr 2
           exact (Int.toNat_of_nonneg (by omega)).symm
         · simp [hz] at h
@@ -355,7 +372,7 @@ theorem places_err (pl : Option S) (c : Code) (h : classPlaces true pl = .err c)
         · simp [hz] at h
         · simp [hz] at h
           subst h
-          simp only [handlePlaces, toInt_num x z hx, Res.bind, hz, if_false]
+          simp only [handlePlaces, table_places.1, table_places.2, toInt_num x z hx, Res.bind, hz, if_false]
     | bool b => simp [classPlaces] at h; subst h; rfl
     | text t => simp [classPlaces] at h
     | blank => simp [classPlaces] at h
@@ -416,6 +433,7 @@ theorem negative_path (r : Radix) (z : Int) (hz : z < 0) :
     checkDigits (intRepr z) (eb r) = .err .num := by
   unfold checkDigits intRepr
   rw [if_pos hz]
+  simp only [table_max_digits]
   split
   · rfl
   · simp [table_permitted, minus_not_valid r]
@@ -430,6 +448,7 @@ theorem long_path (r : Radix) (z : Int) (_h0 : 0 ≤ z) (hz : z ≥ 10 ^ 10) :
     have := (Nat.length_toDigits_le_iff (b := 10) (n := z.toNat) (k := 10) (by omega) (by omega)).1 h
     omega
   unfold checkDigits
+  simp only [table_max_digits]
   rw [e, if_pos (show (Nat.toDigits 10 z.toNat).length > 10 by omega)]
 
 /-- a non-negative number below 10¹⁰ is read by its decimal digits -/
@@ -593,15 +612,17 @@ theorem half_hex : half .hex = 549755813888 := by decide
 /-- BOUNDS[{origin, destination}] tests exactly the window of the destination (the origin's own
     window holds already). -/
 theorem bound_iff (o d : Side) (hod : o ≠ d) (n : Int) (ho : inSide o n) :
-    (-(boundOf o d : Int) ≤ n ∧ n < (boundOf o d : Int)) ↔ inSide d n := by
+    (-(boundOf o d : Int) ≤ n ∧ n ≤ (boundOf o d : Int) - 1) ↔ inSide d n := by
   cases o with
   | dec => cases d with
     | dec => exact absurd rfl hod
-    | rad r => simp [boundOf, inSide, inWindow]
+    | rad r => simp only [boundOf, inSide, inWindow]; omega
   | rad r => cases d with
     | dec =>
       simp only [boundOf, inSide, inWindow] at ho ⊢
-      simp [ho]
+      constructor
+      · intro _; trivial
+      · intro _; omega
     | rad r' =>
       simp only [boundOf, inSide, inWindow] at ho ⊢
       cases r <;> cases r' <;> simp only [half_bin, half_oct, half_hex] at ho ⊢ <;> omega
@@ -623,7 +644,7 @@ theorem conversion_eq (o d : Side) (hod : o ≠ d) (na : NumArg) (n : Int)
   simp only [Res.bind, table_bounds o d hod]
   cases d with
   | dec =>
-    have : -(boundOf o .dec : Int) ≤ n ∧ n < (boundOf o .dec : Int) := hb.2 trivial
+    have : -(boundOf o .dec : Int) ≤ n ∧ n ≤ (boundOf o .dec : Int) - 1 := hb.2 trivial
     simp [this, ebs]
   | rad r =>
     simp only [inSide] at hb
@@ -632,7 +653,7 @@ theorem conversion_eq (o d : Side) (hod : o ≠ d) (na : NumArg) (n : Int)
       simp only [this, not_true, if_false, ebs, eb_ne_dec r, hin, and_self]
       rw [renderDigits_eq r n hin p]
       cases encode r n p <;> rfl
-    · have : ¬ (-(boundOf o (.rad r) : Int) ≤ n ∧ n < (boundOf o (.rad r) : Int)) :=
+    · have : ¬ (-(boundOf o (.rad r) : Int) ≤ n ∧ n ≤ (boundOf o (.rad r) : Int) - 1) :=
         fun h => hin (hb.1 h)
       simp [this, hin]
 
